@@ -240,9 +240,53 @@ fn tie_stream(i: u64, seed: u64, n: usize) -> Out {
     out
 }
 
+/// long-lived instance: one sketcher processes several hundred thousand calls on few distinct items (reinit between rounds), so that
+/// every per-call or per-reset counter of the implementation passes 2^16 and 2^17; each round is compared with a fresh sketch of the
+/// distinct items
+fn long_stream(i: u64, seed: u64, calls: usize) -> Out {
+    let mut rng = rng_from(mix(&[seed, i, 0x10a6]));
+    let ks = kinds();
+    let kind = ks[(i % ks.len() as u64) as usize];
+    let m = [4usize, 8, 16, 64, 256, 3, 33][((i / ks.len() as u64) % 7) as usize];
+    let mut s = make_usk(kind, m);
+    let mut out = Out { execs: 0, groups: 0, fail: None, dig: mix(&[i, 0x10a6, m as u64]), n: 2, case: json!({"kind": kind.name(), "m": m, "calls_per_round": calls, "long_stream_index": i}) };
+    let mut total = 0usize;
+    for round in 0..3 {
+        let nd = rng.random_range(2..40usize);
+        let ids = fresh_ids(&mut rng, nd, 0);
+        let want = by_slice(kind, m, &ids);
+        if round > 0 {
+            s.reinit();
+        }
+        for x in &ids {
+            s.sketch(*x);
+        }
+        // repetitions: runs of one item and random picks
+        let mut done = nd;
+        while done < calls {
+            let x = ids[rng.random_range(0..nd)];
+            let run = if rng.random_range(0..4) == 0 { rng.random_range(1..3000usize) } else { 1 };
+            for _ in 0..run {
+                s.sketch(x);
+            }
+            done += run;
+        }
+        total += done;
+        s.finish();
+        out.execs += 2;
+        out.groups += 1;
+        let got = s.bits();
+        if out.fail.is_none() && got != want {
+            let p = (0..want.len()).find(|&p| got.get(p) != want.get(p)).unwrap_or(0);
+            out.fail = Some(("C04/long-lived".into(), format!("{} m={} : after {} calls on one instance (round {}, {} distinct items, repetitions only) the sketch differs from the fresh sketch of the distinct items in entry {} of the bit image ({:#x} vs {:#x})", kind.name(), m, total, round, nd, p, got.get(p).cloned().unwrap_or(0), want[p])));
+        }
+    }
+    out
+}
+
 pub fn run(rep: &mut Report) {
     quiet_panics();
-    rep.rule = "per random stream (1..1e5 distinct items, duplicates, sketch size 1..10x the stream) and sketcher (SuperMinHash f32/f64/NoHash, SuperMinHash2 u64/u32, SetSketch u16/u32 with 6 parameter tuples, Opt/RevOpt densification f32/f64 with all three views): the one-slice sketch is compared bit for bit with item-wise, sorted, reversed, shuffled, deduplicated, tripled, chunked (2-8 calls mixing slice and item calls) and winners-first/last executions; stored hashes must be hashes of streamed items. Targeted leg: f32 densified sketchers with >= 1e5 items per bin, stream vs reversed stream (exact ties of the minimum). Distinct = digest of (kind, m, items); non-trivial when >= 2 distinct items".into();
+    rep.rule = "per random stream (1..1e5 distinct items, duplicates, sketch size 1..10x the stream) and sketcher (SuperMinHash f32/f64/NoHash, SuperMinHash2 u64/u32, SetSketch u16/u32 with 6 parameter tuples, Opt/RevOpt densification f32/f64 with all three views): the one-slice sketch is compared bit for bit with item-wise, sorted, reversed, shuffled, deduplicated, tripled, chunked (2-8 calls mixing slice and item calls) and winners-first/last executions; stored hashes must be hashes of streamed items. Targeted leg: f32 densified sketchers with >= 1e5 items per bin, stream vs reversed stream (exact ties of the minimum). Long-lived leg: one instance per (kind, m) takes 3 rounds of >= 7e4 (thorough 3e5) calls on 2..40 distinct items with reinit between rounds (counters of the implementation pass 2^16, 2^17), each round compared with the fresh sketch of the distinct items. Distinct = digest of (kind, m, items); non-trivial when >= 2 distinct items".into();
     let nstreams: u64 = rep.tier.pick(3000, 60_000);
     let seed = subseed(rep.seed, "C04/streams", &[]);
     let tier = rep.tier;
@@ -290,6 +334,28 @@ pub fn run(rep: &mut Report) {
                 }
             }
             Err(p) => rep.violation("C04/panic", &format!("tie{}", i), format!("panic: {}", p), json!({"tie_stream": i})),
+        }
+    }
+    // long-lived instances
+    let nlong: u64 = rep.tier.pick(7 * kinds().len() as u64, 28 * kinds().len() as u64);
+    let calls = rep.tier.pick(70_000, 300_000);
+    let outs: Vec<(u64, Result<Out, String>)> = (0..nlong)
+        .into_par_iter()
+        .filter(|i| only.as_ref().map(|c| c == &format!("long{}", i) || c == "longs").unwrap_or(true))
+        .map(|i| (i, catch(move || long_stream(i, seed, calls))))
+        .collect();
+    for (i, o) in outs {
+        match o {
+            Ok(o) => {
+                rep.evaluations += o.execs;
+                rep.count("long_lived_instances", 1);
+                rep.count("groups_compared", o.groups);
+                rep.distinct.insert(o.dig);
+                if let Some((key, what)) = o.fail {
+                    rep.violation(&key, &format!("long{}", i), what, o.case);
+                }
+            }
+            Err(p) => rep.violation("C04/panic", &format!("long{}", i), format!("panic: {}", p), json!({"long_stream": i})),
         }
     }
     collect_ticks(rep);
